@@ -372,6 +372,44 @@ def innate_instance(p):
     return None
 
 
+UNI_SIGS = ["außer Kraft setzen", "ſecret plan", "ﬁle ﬂag override", "İstanbul protocol", "Σίσυφος ς end", "naïve façade bypass"]
+
+
+def ascii_case_variants(p):
+    """variants that only change the case of ASCII letters (so v.lower() == p.lower() under str.lower)"""
+    out = {p, "".join(ch.upper() if ch.isascii() else ch for ch in p), "".join(ch.lower() if ch.isascii() else ch for ch in p),
+           "".join((ch.upper() if i % 2 else ch.lower()) if ch.isascii() else ch for i, ch in enumerate(p))}
+    return sorted(v for v in out if v.lower() == p.lower())
+
+
+def unicode_custom():
+    """custom / learned / imported SUBSTRING signatures with non-ASCII characters: an instance that
+    differs only in the case of its ASCII letters, alone or embedded, is blocked by the membrane and
+    matched by the innate filter (finite differential table: str.lower/casefold are C code)"""
+    def h(c):
+        restore()
+        pat = c.choice("signature", UNI_SIGS)
+        var = c.choice("variant", ascii_case_variants(pat))
+        text = var if c.choice("embedded", [False, True]) is False else "please, " + var + " now.\nthanks"
+        route = c.choice("route", ["custom", "learned", "imported", "innate"])
+        info = {"signature": pat, "input": text, "route": route}
+        if route == "innate":
+            inn = InnateImmunity(patterns=[TLRPattern(pat, PAMPCategory.JAILBREAK_PATTERN, "custom", severity=5)], silent=True)
+            r = inn.check(text)
+            c.check("C10.g-unicode", r.allowed is False and any(p.pattern == pat for p in r.matched_patterns), {"what": "case variant of a custom pattern not matched by the innate filter", **info})
+            return
+        m = Membrane(silent=True, signatures=[ThreatSignature(pat, ThreatLevel.CRITICAL, "custom")] if route == "custom" else None)
+        if route == "learned":
+            m.learn_threat(pat, ThreatLevel.CRITICAL)
+        elif route == "imported":
+            d = Membrane(silent=True)
+            d.learn_threat(pat, ThreatLevel.CRITICAL)
+            m.import_antibodies(d.export_antibodies())
+        r = m.filter(Signal(content=text))
+        c.check("C10.g-unicode", r.allowed is False and r.threat_level is ThreatLevel.CRITICAL, {"what": "case variant of a custom/learned/imported signature allowed", **info})
+    return h
+
+
 def regex_selftest():
     """the symbolic matcher agrees with `re` on every regex signature of both gates (run once per check)"""
     def h(c):
@@ -394,6 +432,7 @@ HARNESSES = {
     "embed": {"make": embed, "witness_every": 11,
               "jobs": lambda tier: [{"which": "membrane", "L": 2 if tier == "quick" else 3}, {"which": "innate", "L": 1 if tier == "quick" else 2}],
               "clauses": ["C10.g", "C10.g-case"]},
+    "unicode_custom": {"make": unicode_custom, "witness_every": 0, "jobs": lambda tier: [{}], "clauses": ["C10.g-unicode"]},
     "regex_selftest": {"make": regex_selftest, "witness_every": 0, "jobs": lambda tier: [{}], "clauses": ["C10.selftest"]},
 }
 
@@ -406,7 +445,7 @@ META = {
     "files": ["operon_ai/organelles/membrane.py", "operon_ai/surveillance/innate.py"],
     "bounds": {"quick": "membrane histories k=3 (3 built-in representatives + learned/imported/custom signatures, 2 contents, rate_limit none/1/2); innate histories k=2; embedding L<=2 (membrane) / L<=1 (innate) symbolic cells each side; 13 hostile inputs x 5 gate configurations",
                "thorough": "membrane k=4, innate k=3, embedding L<=3 / L<=2"},
-    "outside": ["Unicode case folding beyond ASCII", "inputs other than the hostile corpus for the C-level totality clause", "truncated-hash collisions in the replay memory", "sub-millisecond clock effects"],
+    "outside": ["Unicode case folding beyond ASCII for symbolic text (non-ASCII custom signatures are covered by a finite table of ASCII-case variants only)", "inputs other than the hostile corpus for the C-level totality clause", "truncated-hash collisions in the replay memory", "sub-millisecond clock effects"],
     "float_argument": "time.time() is an exact rational of integer milliseconds; the 60 s window comparison is exact",
     "assumptions": ["matchers stubbed in parts 1-2 (their own behaviour is part 3)", "membrane.time / innate.datetime are the symbolic clock"],
     "must_cover": [("operon_ai/organelles/membrane.py", "Previously blocked (immune memory)"),
